@@ -7,6 +7,7 @@ import (
 	"math/rand"
 	"strings"
 
+	"github.com/tetratelabs/wazero/internal/leb128"
 	"github.com/tetratelabs/wazero/internal/wasm"
 	"github.com/tetratelabs/wazero/verifharness/memcat"
 	"github.com/tetratelabs/wazero/verifharness/wb"
@@ -58,6 +59,8 @@ type World struct {
 	StartC  []uint32 `json:"start_c"` // constant passed by the start wrapper of S's function k
 	Engines []string `json:"engines"`
 	Note    string   `json:"note,omitempty"`
+	// set by module() for the instance being built: index of the wrapper of function 0, number of wrapped functions
+	wrapperBase, nTargets uint32
 }
 
 type Step struct {
@@ -224,6 +227,12 @@ func (w *World) module(k int, startFn int) []byte {
 	}
 	nopIdx := nImports + uint32(len(w.Insts[k]))
 	tySig := m.TypeIdx(sig, sig)
+	trapTableBase = 2 * nopIdx
+	w.nTargets = nopIdx // every imported and every own function has a table slot and a local wrapper
+	w.wrapperBase = nopIdx + 1
+	if startFn >= 0 {
+		w.wrapperBase++
+	}
 
 	m.Memory(1, nil, false, "memory")
 	for g := 0; g < 2; g++ {
@@ -277,17 +286,33 @@ func (w *World) module(k int, startFn int) []byte {
 		idx := m.AddFunc(wb.Func{Body: wb.Cat(wb.I32Const(int32(w.StartC[startFn])), wb.Call(guestIdx[[2]int{k, startFn}]), wb.Op(wasm.OpcodeDrop))})
 		m.M.StartSection = &idx
 	}
-	// table: [f0, f0, nop, null]
-	m.M.TableSection = []wasm.Table{{Min: 4, Type: wasm.RefTypeFuncref}}
+	for t := uint32(0); t < w.nTargets; t++ {
+		if got := m.AddFunc(wb.Func{Params: sig, Results: sig, Body: wb.Cat(wb.LocalGet(0), wb.Call(t))}); got != w.wrapperBase+t {
+			panic(fmt.Sprintf("wrapper index %d, expected %d", got, w.wrapperBase+t))
+		}
+	}
+	// table: [every function, every wrapper, f0, f0, nop, null]
+	m.M.TableSection = []wasm.Table{{Min: 2*w.nTargets + 4, Type: wasm.RefTypeFuncref}}
 	if len(w.Insts[k]) > 0 {
 		f0 := guestIdx[[2]int{k, 0}]
 		m.M.ElementSection = []wasm.ElementSegment{{
-			OffsetExpr: wasm.ConstantExpression{Opcode: wasm.OpcodeI32Const, Data: []byte{0}},
+			OffsetExpr: wasm.ConstantExpression{Opcode: wasm.OpcodeI32Const, Data: leb128.EncodeInt32(int32(2 * w.nTargets))},
 			Init:       []wasm.Index{f0, f0, nopIdx},
 			Type:       wasm.RefTypeFuncref,
 			Mode:       wasm.ElementModeActive,
 		}}
 	}
+	var routes []wasm.Index
+	for t := uint32(0); t < w.nTargets; t++ {
+		routes = append(routes, t)
+	}
+	for t := uint32(0); t < w.nTargets; t++ {
+		routes = append(routes, w.wrapperBase+t)
+	}
+	m.M.ElementSection = append(m.M.ElementSection, wasm.ElementSegment{
+		OffsetExpr: wasm.ConstantExpression{Opcode: wasm.OpcodeI32Const, Data: []byte{routeTableBase}},
+		Init:       routes, Type: wasm.RefTypeFuncref, Mode: wasm.ElementModeActive,
+	})
 	return m.Bytes()
 }
 
@@ -340,16 +365,48 @@ func (w *World) opCode(in Instr, hostIdx map[string]uint32, guestIdx map[[2]int]
 		case "oobtable":
 			return callInd(1000)
 		case "nulltable":
-			return callInd(3)
+			return callInd(int32(trapTableBase) + 3)
 		case "sigmismatch":
-			return callInd(2)
+			return callInd(int32(trapTableBase) + 2)
 		}
 	case "ca":
-		return wb.Cat(argCode(in.Arg), wb.Call(guestIdx[[2]int{in.Inst, in.Fn}]), accAdd)
+		return wb.Cat(w.callRoute(in.Variant, argCode(in.Arg), guestIdx[[2]int{in.Inst, in.Fn}], tySig), accAdd)
 	case "ho":
-		return wb.Cat(argCode(in.Arg), wb.Call(hostIdx[in.hostName()]), accAdd)
+		return wb.Cat(w.callRoute(in.Variant, argCode(in.Arg), hostIdx[in.hostName()], tySig), accAdd)
 	}
 	panic("bad instr " + in.Op + " " + in.Trap)
+}
+
+// callRoute: the ways a function (a host function, an imported or an own guest function) with index idx can be
+// reached.  For the reference semantics a call is a call; for a back end each route is another piece of code that has
+// to tell the callee who is calling (module context, caller identity for Go functions, stack bookkeeping).
+//
+//	""         call idx
+//	"indirect" call_indirect through the table slot that holds idx
+//	"wrapped"  call of a local function that does nothing but call idx
+//	"wrapped-indirect"  the local wrapper, reached through the table
+const (
+	routeTableBase = 0 // table: [every function index in order..., every wrapper in order..., f0, f0, nop, null]
+)
+
+// trapTableBase: index of the 4-element tail [f0, f0, nop, null] of the table of the module being built
+var trapTableBase uint32
+
+var callRoutes = []string{"indirect", "wrapped", "wrapped-indirect"}
+
+func (w *World) callRoute(route string, arg []byte, idx, tySig uint32) []byte {
+	ind := func(slot uint32) []byte {
+		return wb.Cat(arg, wb.I32Const(int32(slot)), wb.Op(wasm.OpcodeCallIndirect), wb.U32(tySig), wb.U32(0))
+	}
+	switch route {
+	case "indirect":
+		return ind(routeTableBase + idx)
+	case "wrapped":
+		return wb.Cat(arg, wb.Call(w.wrapperBase+idx))
+	case "wrapped-indirect":
+		return ind(routeTableBase + w.nTargets + idx)
+	}
+	return wb.Cat(arg, wb.Call(idx))
 }
 
 // store8Variant: mem8[addr] := value through different instructions (all leave exactly that byte changed).
@@ -364,6 +421,8 @@ func store8Variant(v string, addr, val []byte) []byte {
 		return wb.Cat(addr, val, at(wasm.OpcodeAtomicI32Rmw8XchgU), wb.Op(wasm.OpcodeDrop))
 	case "atomic.cmpxchg8": // expected = the current byte, read atomically first
 		return wb.Cat(addr, addr, at(wasm.OpcodeAtomicI32Load8U), val, at(wasm.OpcodeAtomicI32Rmw8CmpxchgU), wb.Op(wasm.OpcodeDrop))
+	case "grow0.store8": // memory.grow by zero pages first (an instruction that may reach the host), then the store
+		return wb.Cat(wb.I32Const(0), wb.MemoryGrow(), wb.Op(wasm.OpcodeDrop), addr, val, wb.MemArg(wasm.OpcodeI32Store8, 0, 0))
 	case "fence.store8":
 		return wb.Cat([]byte{wasm.OpcodeAtomicPrefix, wasm.OpcodeAtomicFence, 0}, addr, val, wb.MemArg(wasm.OpcodeI32Store8, 0, 0),
 			wb.I32Const(0), wb.I32Const(0), []byte{wasm.OpcodeAtomicPrefix, wasm.OpcodeAtomicMemoryNotify, 2, 0}, wb.Op(wasm.OpcodeDrop))
@@ -374,7 +433,7 @@ func store8Variant(v string, addr, val []byte) []byte {
 	panic("bad store variant " + v)
 }
 
-var store8Variants = []string{"atomic.store8", "atomic.xchg8", "atomic.cmpxchg8", "fence.store8", "atomic.or16"}
+var store8Variants = []string{"atomic.store8", "atomic.xchg8", "atomic.cmpxchg8", "fence.store8", "atomic.or16", "grow0.store8"}
 
 // trapVariants: the concrete instructions per trap kind (catalogue of memory instructions from package memcat,
 // bulk memory and table instructions, every trapping division and truncation).
@@ -440,10 +499,10 @@ func trapVariant(kind, v string) []byte {
 			return wb.Cat(wb.I32Const(1000), []byte{wasm.OpcodeTableGet, 0}, drop)
 		case "table.set":
 			return wb.Cat(wb.I32Const(1000), null, []byte{wasm.OpcodeTableSet, 0})
-		case "table.fill": // [3, 8) crosses the end of the 4-element table: nothing is written
-			return wb.Cat(wb.I32Const(3), null, wb.I32Const(5), misc(wasm.OpcodeMiscTableFill, 0))
+		case "table.fill": // [size-1, size+4) crosses the end of the table: nothing is written
+			return wb.Cat(wb.I32Const(int32(trapTableBase)+3), null, wb.I32Const(5), misc(wasm.OpcodeMiscTableFill, 0))
 		case "table.copy":
-			return wb.Cat(wb.I32Const(2), wb.I32Const(0), wb.I32Const(5), misc(wasm.OpcodeMiscTableCopy, 0, 0))
+			return wb.Cat(wb.I32Const(int32(trapTableBase)+2), wb.I32Const(0), wb.I32Const(5), misc(wasm.OpcodeMiscTableCopy, 0, 0))
 		}
 	case "divzero", "divoverflow":
 		c, z := wb.LocalGet(0), zero()
@@ -518,6 +577,8 @@ func (g *gen) variant(in Instr) Instr {
 		if vs := trapVariants[in.Trap]; len(vs) > 0 {
 			in.Variant = vs[g.r.Intn(len(vs))]
 		}
+	case "ca", "ho":
+		in.Variant = callRoutes[g.r.Intn(len(callRoutes))]
 	}
 	return in
 }
@@ -641,7 +702,7 @@ func (g *gen) fn(w *World, k, f int, recBudget *int) Func {
 				in = g.effect()
 			} else {
 				t := cs[g.r.Intn(len(cs))]
-				in = Instr{Op: "ca", Inst: t[0], Fn: t[1], Arg: g.arg()}
+				in = g.variant(Instr{Op: "ca", Inst: t[0], Fn: t[1], Arg: g.arg()})
 			}
 		default:
 			hs := []string{"ok", "pe", "ps", "pv", "cl", "ex", "rc", "rp", "rc", "rp"}
@@ -661,6 +722,7 @@ func (g *gen) fn(w *World, k, f int, recBudget *int) Func {
 					in.Inst, in.Fn = t[0], t[1]
 				}
 			}
+			in = g.variant(in)
 		}
 		in.G = g.guard(params)
 		// failing instructions are mostly guarded so that the same function both succeeds and fails
